@@ -1100,3 +1100,46 @@ def check_positional_removals(run, ctx, rule='C04-P6'):
                     run.ok(rule, '%s/bb%d' % (ctx.label(body), bi), 'index from a forward equality search of the same queue (or a random position)')
     run.require(rule, 'positional queue removals', n, 8)
     return n
+
+
+def check_registry_counts(run, ctx, rule='C12-S4'):
+    """the invalidation functions return how many caches they invalidated: the counter they return starts at 0 and
+    moves in steps of 1"""
+    n = 0
+    for body in sorted(ctx.core.bodies.values(), key=lambda b: b.id):
+        if not body.name.startswith(REG) or body.kind != 'assoc_fn' or body.local_ty(0) != 'usize':
+            continue
+        ex = Expr(body)
+        adds = []
+        for bi, bl in enumerate(body.blocks):
+            if bl['cleanup']:
+                continue
+            for st in bl['stmts']:
+                if st['k'] == 'assign' and st['rv'].get('bin') in ('AddWithOverflow', 'Add'):
+                    adds.append((bi, st))
+        if not adds:
+            continue
+        n += 1
+        probs = []
+        accs = set()
+        for bi, st in adds:
+            b_ = ex.operand(st['rv']['b'])
+            if not (b_[0] == 'const' and b_[1] == 1):
+                probs.append('a step of %s (%s)' % (show(b_), body.loc(bi)))
+            pa = st['rv']['a'].get('copy') or st['rv']['a'].get('move')
+            if pa is not None and not pa.get('proj'):
+                accs.add(pa['l'])
+        for l in accs:
+            for d in body.defs.get(l, []):
+                if d[0] == 'stmt' and 'use' in d[3] and 'const' in d[3]['use']:
+                    v = d[3]['use']['const'].get('int')
+                    if v != 0:
+                        probs.append('a start value of %s' % v)
+        short = body.name.rsplit('::', 1)[-1]
+        if probs:
+            run.bad(rule, '%s/count-form' % short, '%s returns a count that has %s: it must report exactly how many caches were invalidated' % (body.name, '; '.join(probs)),
+                    site=body.name, oracle='count starts at 0, +1 per cache')
+        else:
+            run.ok(rule, short, 'count starts at 0 and moves in steps of 1')
+    run.require(rule, 'counting registry functions', n, 2)
+    return n
